@@ -282,14 +282,25 @@ func (p *probeCB) OnShutdown() {
 }
 func (p *probeCB) PreStopHook(ctx context.Context) func() error { return nil }
 
+// freePort picks a port below the ephemeral range (so no outgoing connection of any process on the machine can take it
+// between this check and the listen that follows), verified free by binding once.
+var portSeq = os.Getpid()*7919 + int(time.Now().UnixNano()%9973)
+
 func freePort() int {
-	ln, err := net.Listen("tcp", "127.0.0.1:0")
-	if err != nil {
-		panic(err)
+	for try := 0; try < 2000; try++ {
+		portSeq += 37
+		p := 20000 + (portSeq % 12000)
+		if p < 0 {
+			p = -p
+		}
+		ln, err := net.Listen("tcp", fmt.Sprintf("127.0.0.1:%d", p))
+		if err != nil {
+			continue
+		}
+		ln.Close()
+		return p
 	}
-	p := ln.Addr().(*net.TCPAddr).Port
-	ln.Close()
-	return p
+	panic("no free port")
 }
 
 func c11Listener(run *Run) int {
